@@ -3,6 +3,7 @@ use crate::{core::Report, Args};
 pub mod c04;
 pub mod c07;
 pub mod c09;
+pub mod c10;
 pub mod wiretypes;
 pub mod c11;
 pub mod util;
@@ -12,6 +13,7 @@ pub fn dispatch(id: &str, args: &Args) -> Option<Report> {
         "C04" => c04::run(args),
         "C07" => c07::run(args),
         "C09" => c09::run(args),
+        "C10" => c10::run(args),
         "C11" => c11::run(args),
         _ => return None,
     })
